@@ -639,7 +639,8 @@ def colls_verdict(ctx, pid, res, conf):
             continue
         if pid != 'C16' and ('parts probe' in xl or 'parts case' in xl):
             continue
-        if 'helpers case' in xl and not (pid == 'C06' or (pid == 'C08' and ('contents' in xl or 'std::vec::Vec' in xl))):
+        is_content = ('helpers: contents' in xl or 'helpers: std::vec::Vec' in xl)
+        if 'helpers case' in xl and not ((pid == 'C06' and not is_content) or (pid == 'C08' and is_content)):
             continue
         probe = ' probe ' in xl or ' reserve ::' in xl
         ctx.violations.append({'kind': 'colls-probe' if probe else 'colls-case', 'build': b, 'case': None if probe else case, 'what_fails': xl,
